@@ -178,7 +178,7 @@ def run(rep):
                         acts[a] = acts.get(a, 0) + 1
             tasks = make_tasks(groups, j['name'], scratch, tmp)
             del groups
-            for out in pool.imap_unordered(c09_lib.process_chunk, tasks, chunksize=1):
+            for out in pool.imap(c09_lib.process_chunk, tasks, chunksize=1):
                 machinery += out['machinery']
                 rep.validated(out['behaviours'])
                 rep.add('steps_replayed', out['steps'])
@@ -208,7 +208,7 @@ def run(rep):
                'holding a module and is never rebound (directives must be static, malt/converters/directives.py)')
 
 
-ACTIONS = ('PickSig', 'PickEnv', 'PreConvert', 'Convert', 'Call', 'Rebind', 'ReadBack', 'MutateDefault', 'RebindGlobal')
+ACTIONS = ('PickSig', 'PickEnv', 'PreConvert', 'ConvertAct', 'CallAct', 'RebindAct', 'ReadBackAct', 'MutateAct', 'GlobalAct')
 
 
 def selftest():
@@ -221,7 +221,7 @@ def selftest():
         res = tlc.run_tlc('FnEnv', cfg, workers=4, timeout=600, name='FnEnv_variant')
         print('Variant "bypos": TLC reports violated invariants %s' % res.violated)
         bad = 'Agree' not in res.violated
-        j = job('cov', 1, 1, 1, True, 1, ALL_KINDS, 2, 'TRUE, FALSE', 'env', 2)
+        j = job('cov', 0, 1, 1, False, 1, '"nested", "decorated"', 2, 'TRUE, FALSE', 'env', 2)
         cfg = (CFG % j).replace('INVARIANT ReportSc\n', '').replace('INVARIANT Report\n', '')
         res = tlc.run_tlc('FnEnv', cfg, workers=4, timeout=1500, name='FnEnv_cov', coverage=True).require_ok('coverage')
         for a in ACTIONS:
